@@ -92,6 +92,18 @@ class TransformedTargetForecaster(
         # Shallow copy
         return list(self.steps)
 
+    def _set_cutoff(self, cutoff):
+        """Set and update cutoff, also of the fitted final forecaster, so that
+        forecasts keep being made from the pipeline's own cutoff (e.g. when it is
+        restored at the end of update_predict)"""
+        super(TransformedTargetForecaster, self)._set_cutoff(cutoff)
+        if self.steps_ is not None:
+            forecaster = self.steps_[-1][1]
+            if getattr(forecaster, "_is_fitted", False) and hasattr(
+                forecaster, "_set_cutoff"
+            ):
+                forecaster._set_cutoff(cutoff)
+
     def _iter_transformers(self, reverse=False):
 
         # exclude final forecaster
